@@ -132,7 +132,7 @@ func TestVerif_C26(t *testing.T) {
 	r := verifmc.NewReport("C26", "epoch-data-by-fork", "model_checking")
 	defer r.Write()
 	maxN := verifmc.Pick(4, 5)
-	r.Rule = fmt.Sprintf("every parent vector with up to %d nodes (node 0 = genesis; = every parent-first import history of every tree) x every epoch-step assignment x every announcement assignment (none/next-epoch-data/next-config/both per block), built on the real BlockState+EpochState by AddBlock+HandleBABEDigest; GetEpochDataRaw(e,h) and GetConfigData(e,h) for every block h and epoch e in 0..maxEpoch+1 compared with the announcements on h's ancestry; a lookup must return within a 20 s watchdog; a case is non-trivial when some other fork announces for the queried epoch", maxN)
+	r.Rule = fmt.Sprintf("every parent vector with up to %d nodes (node 0 = genesis; = every parent-first import history of every tree) x every epoch-step assignment x every announcement assignment (none/next-epoch-data/next-config/both per block), built on the real BlockState+EpochState by AddBlock+HandleBABEDigest; then, without finalisation and after finalising each block in turn (SetFinalisedHash + FinalizeBABENextEpochData/ConfigData as the digest handler does), GetEpochDataRaw(e,h) and GetConfigData(e,h) for every surviving block h and epoch e in 0..maxEpoch+1 compared with the announcements on h's ancestry; a lookup must return within a 20 s watchdog; a case is non-trivial when some other fork announces for the queried epoch", maxN)
 	var scs []c26Scenario
 	for n := 2; n <= maxN; n++ {
 		verifmc.ParentVectors(n, func(parent []int) {
@@ -175,125 +175,157 @@ func TestVerif_C26(t *testing.T) {
 			r.Violate("build:error", sc.String()+": "+err.Error(), sc.String())
 			return
 		}
-		defer b.db.Close()
 		n := len(sc.parent)
-		maxE := uint64(0)
-		for _, e := range b.epoch {
-			if e > maxE {
-				maxE = e
-			}
-		}
 		cnt := int64(0)
-		for h := 1; h < n; h++ {
-			for e := uint64(0); e <= maxE+1; e++ {
-				for _, bit := range []int{1, 2} {
-					cnt++
-					want := c26Expect(sc, b, h, e, bit)
-					if want == -2 {
-						r.Outcome("skipped:two-announcements-for-one-epoch-on-one-chain")
-						continue
+		// fin == 0: no finalisation; fin = f > 0: block f was finalised (SetFinalisedHash, then the epoch
+		// state's finalisation hooks as the digest handler runs them) before the queries
+		for fin := 0; fin < n; fin++ {
+			if fin > 0 {
+				b.db.Close()
+				b, err = c26Build(sc)
+				if err != nil {
+					r.Violate("build:error", sc.String()+": "+err.Error(), sc.String())
+					return
+				}
+				if err := b.es.blockState.SetFinalisedHash(b.headers[fin].Hash(), 1, 0); err != nil {
+					r.Violate("finalise:error", fmt.Sprintf("%s: finalising block %d: %v", sc.String(), fin, err), sc.String())
+					continue
+				}
+				_ = b.es.FinalizeBABENextEpochData(b.headers[fin])
+				_ = b.es.FinalizeBABENextConfigData(b.headers[fin])
+			}
+			maxE := uint64(0)
+			for _, e := range b.epoch {
+				if e > maxE {
+					maxE = e
+				}
+			}
+			isDesc := func(a, x int) bool { // a is an ancestor of or equal to x
+				for ; x > 0; x = sc.parent[x] {
+					if x == a {
+						return true
 					}
-					otherFork := false
-					for x := 1; x < n; x++ {
-						if sc.ann[x]&bit != 0 && b.epoch[x]+1 == e && want != x {
-							otherFork = true
-						}
-					}
-					what := "GetEpochDataRaw"
-					if bit == 2 {
-						what = "GetConfigData"
-					}
-					label := fmt.Sprintf("%s: %s(epoch %d, block %d)", sc.String(), what, e, h)
-					replay := map[string]any{"scenario": sc.String(), "query": fmt.Sprintf("%s(%d, block %d)", what, e, h)}
-					var got int = -1
-					var gerr error
-					finished, pmsg := verifmc.WithWatchdog(20*time.Second, func() {
-						if bit == 1 {
-							d, err := b.es.GetEpochDataRaw(e, b.headers[h])
-							gerr = err
-							if err == nil && d != nil {
-								got = int(d.Randomness[0])
-								if d.Randomness[0] == 0xfe {
-									got = 0 // genesis
-								}
-							}
-						} else {
-							c, err := b.es.GetConfigData(e, b.headers[h])
-							gerr = err
-							if err == nil && c != nil {
-								got = int(c.C2) - 100
-								if c.C2 == 99 {
-									got = 0
-								}
-							}
-						}
-					})
-					if !finished {
-						mu.Lock()
-						hung = true
-						mu.Unlock()
-						r.Violate(what+":hangs-when-own-ancestry-announces-nothing", label+": did not return within 20 s", replay)
-						r.Capped("stopped after a lookup hung (the spinning goroutine cannot be killed)")
-						return
-					}
-					if pmsg != "" {
-						r.Violate(what+":panic@"+verifmc.PanicSite(pmsg), label+": "+pmsg, replay)
-						continue
-					}
-					// expectation
-					if bit == 1 {
-						switch {
-						case e == 0:
-							if gerr != nil || got != 0 {
-								r.Violate(what+":epoch0-not-genesis", fmt.Sprintf("%s: got node %d err %v, want genesis data", label, got, gerr), replay)
-							}
-						case want >= 0:
-							if gerr != nil {
-								r.Violate(what+":own-announcement-not-found", fmt.Sprintf("%s: error %v, want the data announced at block %d", label, gerr, want), replay)
-							} else if got != want {
-								r.Violate(what+":returns-other-announcement", fmt.Sprintf("%s: returned the data announced at block %d, want block %d", label, got, want), replay)
-							}
-						default:
-							if gerr == nil {
-								r.Violate(what+":returns-another-forks-data", fmt.Sprintf("%s: returned the data announced at block %d although nothing is announced on the ancestry", label, got), replay)
-							}
-						}
-					} else {
-						// latest earlier configuration on the ancestry, else genesis
-						wantCfg := 0
-						amb := false
-						for ee := e; ee >= 1; ee-- {
-							w := c26Expect(sc, b, h, ee, 2)
-							if w == -2 {
-								amb = true
-								break
-							}
-							if w >= 0 {
-								wantCfg = w
-								break
-							}
-						}
-						if amb {
+				}
+				return a == 0
+			}
+			for h := 1; h < n; h++ {
+				if fin > 0 && !isDesc(fin, h) {
+					continue // abandoned or already finalised below fin
+				}
+				for e := uint64(0); e <= maxE+1; e++ {
+					for _, bit := range []int{1, 2} {
+						cnt++
+						want := c26Expect(sc, b, h, e, bit)
+						if want == -2 {
 							r.Outcome("skipped:two-announcements-for-one-epoch-on-one-chain")
 							continue
 						}
-						if gerr != nil {
-							sig := what + ":error"
-							if otherFork || c26OtherForkBelow(sc, b, h, e) {
-								sig = what + ":fails-instead-of-earlier-config-when-another-fork-announced"
+						otherFork := false
+						for x := 1; x < n; x++ {
+							if sc.ann[x]&bit != 0 && b.epoch[x]+1 == e && want != x {
+								otherFork = true
 							}
-							r.Violate(sig, fmt.Sprintf("%s: error %v, want the configuration announced at block %d (0 = genesis)", label, gerr, wantCfg), replay)
-						} else if got != wantCfg {
-							r.Violate(what+":returns-other-config", fmt.Sprintf("%s: returned the configuration announced at block %d, want block %d (0 = genesis)", label, got, wantCfg), replay)
 						}
+						what := "GetEpochDataRaw"
+						if bit == 2 {
+							what = "GetConfigData"
+						}
+						label := fmt.Sprintf("%s finalised=%d: %s(epoch %d, block %d)", sc.String(), fin, what, e, h)
+						replay := map[string]any{"scenario": sc.String(), "finalised_block": fin, "query": fmt.Sprintf("%s(%d, block %d)", what, e, h)}
+						if fin > 0 {
+							what += "[after-finalisation]"
+						}
+						var got int = -1
+						var gerr error
+						finished, pmsg := verifmc.WithWatchdog(20*time.Second, func() {
+							if bit == 1 {
+								d, err := b.es.GetEpochDataRaw(e, b.headers[h])
+								gerr = err
+								if err == nil && d != nil {
+									got = int(d.Randomness[0])
+									if d.Randomness[0] == 0xfe {
+										got = 0 // genesis
+									}
+								}
+							} else {
+								c, err := b.es.GetConfigData(e, b.headers[h])
+								gerr = err
+								if err == nil && c != nil {
+									got = int(c.C2) - 100
+									if c.C2 == 99 {
+										got = 0
+									}
+								}
+							}
+						})
+						if !finished {
+							mu.Lock()
+							hung = true
+							mu.Unlock()
+							r.Violate(what+":hangs-when-own-ancestry-announces-nothing", label+": did not return within 20 s", replay)
+							r.Capped("stopped after a lookup hung (the spinning goroutine cannot be killed)")
+							return
+						}
+						if pmsg != "" {
+							r.Violate(what+":panic@"+verifmc.PanicSite(pmsg), label+": "+pmsg, replay)
+							continue
+						}
+						// expectation
+						if bit == 1 {
+							switch {
+							case e == 0:
+								if gerr != nil || got != 0 {
+									r.Violate(what+":epoch0-not-genesis", fmt.Sprintf("%s: got node %d err %v, want genesis data", label, got, gerr), replay)
+								}
+							case want >= 0:
+								if gerr != nil {
+									r.Violate(what+":own-announcement-not-found", fmt.Sprintf("%s: error %v, want the data announced at block %d", label, gerr, want), replay)
+								} else if got != want {
+									r.Violate(what+":returns-other-announcement", fmt.Sprintf("%s: returned the data announced at block %d, want block %d", label, got, want), replay)
+								}
+							default:
+								if gerr == nil {
+									r.Violate(what+":returns-another-forks-data", fmt.Sprintf("%s: returned the data announced at block %d although nothing is announced on the ancestry", label, got), replay)
+								}
+							}
+						} else {
+							// latest earlier configuration on the ancestry, else genesis
+							wantCfg := 0
+							amb := false
+							for ee := e; ee >= 1; ee-- {
+								w := c26Expect(sc, b, h, ee, 2)
+								if w == -2 {
+									amb = true
+									break
+								}
+								if w >= 0 {
+									wantCfg = w
+									break
+								}
+							}
+							if amb {
+								r.Outcome("skipped:two-announcements-for-one-epoch-on-one-chain")
+								continue
+							}
+							if gerr != nil {
+								sig := what + ":error"
+								if otherFork || c26OtherForkBelow(sc, b, h, e) {
+									sig = what + ":fails-instead-of-earlier-config-when-another-fork-announced"
+								}
+								r.Violate(sig, fmt.Sprintf("%s: error %v, want the configuration announced at block %d (0 = genesis)", label, gerr, wantCfg), replay)
+							} else if got != wantCfg {
+								r.Violate(what+":returns-other-config", fmt.Sprintf("%s: returned the configuration announced at block %d, want block %d (0 = genesis)", label, got, wantCfg), replay)
+							}
+						}
+						if otherFork {
+							r.Distinct(label)
+						}
+						r.Outcome(fmt.Sprintf("%s want=%t err=%t otherFork=%t", what, want >= 0, gerr != nil, otherFork))
 					}
-					if otherFork {
-						r.Distinct(label)
-					}
-					r.Outcome(fmt.Sprintf("%s want=%t err=%t otherFork=%t", what, want >= 0, gerr != nil, otherFork))
 				}
 			}
 		}
+		b.db.Close()
 		mu.Lock()
 		evals += cnt
 		states++
